@@ -42,6 +42,8 @@ func init() {
 	commands["lock-close"] = lockx.CloseWindow
 	commands["lock-window"] = lockx.LockWindow
 	commands["lock-other-user"] = lockx.OtherUser
+	commands["lock-bigpid"] = lockx.BigPid
+	commands["lock-bigpid-inner"] = lockx.BigPidInner
 	commands["lock-window-child"] = lockx.LockWindowChild
 	commands["lock-worker"] = lockx.Worker
 	commands["fidelity"] = fidx.Run
